@@ -346,6 +346,12 @@ class World:
 
     def on_loop_exception(self, pid, context):
         exc = context.get('exception')
+        if exc is None and 'was destroyed but it is pending' in str(context.get('message')):
+            # Task.__del__ of a pending task nobody references any more: reported when the garbage collector
+            # happens to run, so not a function of the schedule; whatever it was meant to produce is missed
+            # (and judged) as a hang or a missing output, deterministically
+            self.stats['pending_task_destroyed'] += 1
+            return
         self.loop_exceptions.append((pid, self.steps, context.get('message'), repr(exc)))
         if os.environ.get('DSIM_TRACEBACK') and exc is not None:
             import traceback
